@@ -356,6 +356,51 @@ func (ex *Exec) globalObjectRaw(g *ssa.Global) *Object {
 	return obj
 }
 
+// globalRow: the heap row of a package-level array variable. It is allocated when the variable is first met
+// in the run of its package's initialiser (a concrete reference below the entry allocation counter of every
+// function); outside the initialiser a variable that the package also writes elsewhere has unknown content.
+func (ex *Exec) globalRow(st *State, g *ssa.Global, at *types.Array) (*Term, bool) {
+	if ex.globalRows == nil {
+		ex.globalRows = map[*ssa.Global]int64{}
+	}
+	if ref, ok := ex.globalRows[g]; ok {
+		r := IntLit(ref)
+		if !ex.inInit && !ex.globalIsConstant(g) {
+			key := "$globalrow!" + g.Pkg.Pkg.Path() + "." + g.Name()
+			if _, done := st.ghost[key]; !done {
+				st.ghost[key] = True
+				leaves, err := ex.flattenType(at.Elem())
+				if err != nil {
+					return nil, false
+				}
+				for _, lf := range leaves {
+					hk := heapKey(at.Elem(), lf)
+					h := st.heap(hk, HeapOf(lf.Sort))
+					st.heaps[hk] = Store(h, r, ex.fresh("row", ArrayOf(lf.Sort)))
+				}
+			}
+		}
+		return r, true
+	}
+	if !ex.inInit {
+		ex.ensureInit(g.Pkg)
+		if ref, ok := ex.globalRows[g]; ok {
+			return IntLit(ref), true
+		}
+		return nil, false
+	}
+	if _, err := ex.flattenType(at.Elem()); err != nil {
+		return nil, false
+	}
+	ref := ex.allocRow(st, at.Elem())
+	v, ok := ref.Int64()
+	if !ok {
+		return nil, false
+	}
+	ex.globalRows[g] = v
+	return ref, true
+}
+
 // RunInits executes the initialisers of all module packages (once, at session start), in a fixed order:
 // by package path, every package after the module packages it imports. (The order matters: an initialiser
 // that reads a global of a package whose initialiser has not run yet would start that run in the middle of
